@@ -893,6 +893,16 @@ func (in *interp) evalFunc(x *ast.FunctionNode, sc map[string]interface{}) (inte
 			in.unspec = true // degenerate: rounding decides between 0 and a huge quotient
 			return 0.0, nil
 		}
+		// ill-conditioned samples (spread tiny against the magnitude, e.g. 1e6 and 1e6+2e-6):
+		// every summation order loses the digits the quotient consists of - rounding decides
+		maxAbs := 0.0
+		for _, s := range in.sigmaXs {
+			maxAbs = math.Max(maxAbs, math.Abs(s))
+		}
+		if maxAbs/math.Sqrt(variance) > 1e4 {
+			in.unspec = true
+			return 0.0, nil
+		}
 		in.approx = true
 		return math.Abs(v-mean) / math.Sqrt(variance), nil
 	}
